@@ -177,6 +177,22 @@ class Gen:
         self.ops.append('rereadall')
         self.traces.append((self.label, self.ops))
 
+    def natural_collisions(self, n):
+        """Different 16-byte words with the SAME std::hash code (libstdc++; computed, not injected): they meet in one bucket of the real
+        map by themselves, whatever that bucket is made of."""
+        rng = self.rng
+        self.start('equal-hash-natural', 7)
+        for k, (a, b) in enumerate(C.equal_hash_pairs(rng, n)):
+            first, second = (a, b) if k % 2 == 0 else (b, a)
+            lex = rng.randrange(2)
+            self.emit('get L%d %s' % (lex, hx(first)))
+            self.emit('get L%d %s' % (lex, hx(second)))
+            self.reread_some(2)
+            self.emit('get L%d %s' % (lex, hx(first)))
+            self.emit('get L%d %s' % (1 - lex, hx(second)))
+            self.emit('get L%d %s' % (lex, hx(second)))
+        self.done()
+
     # -- the families -----------------------------------------------------------------------------------------
     def boundary_lengths(self):
         B, rng = self.B, self.rng
@@ -395,6 +411,7 @@ def generate(B, known, rng, tier):
     g.reserved()
     g.pool_filling()
     g.small_rollover()
+    g.natural_collisions(40 if tier == 'quick' else 600)
     g.mix(300, 1, 'mix-one-bucket')
     if tier == 'quick':
         g.mix(4000, 7, 'mix-few-buckets')
